@@ -261,7 +261,7 @@ def plan_c05(run, tmp):
               hcodec_cfg(defmode="vary", predefs=allk if th else "{0, 2, 15, 16, 40}", maxdev=2 if th else 1, wide="FALSE"),
               mc_note="every permutation / subset / one unknown field (9 kinds of unknown value) of the class definitions of the small objects x definition index k x short/long instance form")
     alt_stage(run, tmp, hx, known, "c05five", "c05", "vary",
-              hcodec_cfg(defmode="vary", predefs=allk, maxdev=100000, wide="TRUE", maxchunks=2), simulate=60000 if th else 2000,
+              hcodec_cfg(defmode="vary", predefs=allk, maxdev=100000, wide="TRUE", maxchunks=2), simulate=60000 if th else 600,
               mc_note="simulation: definition variants of 5- and 16-field structs, definition index 0..40, unknown fields carrying containers")
     return V.finish(run, "model_checking", "class definitions varied by the TLA+ reference encoder (permuted, with fields dropped, with an unknown field at any position carrying any kind of value, at definition index 0..40, short and long instance form); the real decoder's result is compared by TLC with the value whose dropped fields are zero")
 
@@ -303,7 +303,7 @@ def plan_c11(run, tmp):
     th = run.tier == "thorough"
     r = V.model_check(tmp, "HApi", "HApi")
     run.add_mc("HApi", r, "ProbeEqualsFresh after every history of length <= 8 over {stream write/read, one-shot encode/decode ok and failing, Reset} x 4 abstract values")
-    for neg in ("resetKeepsRefs", "resetKeepsDefs", "encodeSkipsReset"):
+    for neg in ("resetKeepsRefs", "resetKeepsDefs", "resetKeepsCount", "encodeSkipsReset"):
         d = V.spec_dir(tmp, "mc_HApi_" + neg)
         with open(V.os.path.join(d, "HApi_%s.cfg" % neg), "w") as f:
             f.write('SPECIFICATION Spec\nCONSTANTS MaxLen = 4\n Deviation = "%s"\nINVARIANTS ProbeEqualsFresh\nVIEW View\nCHECK_DEADLOCK FALSE\n' % neg)
